@@ -67,6 +67,27 @@ func (rpFamily) Gen(r *rand.Rand, i int, tier string) *hc.Case {
 	latest := int64(0)
 	far := false
 	for len(ops) < n {
+		if !far && r.Intn(12) == 0 {
+			// a SNAPSHOT moves the window too: (optionally empty it,) snapshot some buckets ahead, then add and
+			// snapshot at stamps the move has made stale, before anything newer is presented
+			nb := int64(p.N)
+			at := func(idx int64) hc.TS {
+				if idx < 0 {
+					idx = 0
+				}
+				return p.at(idx*p.W + hc.Pick(r, int64(0), p.W-1, r.Int63n(p.W)))
+			}
+			if r.Intn(2) == 0 {
+				ops = append(ops, rpOp{"reset", 0, at(latest)})
+			}
+			latest += hc.Pick(r, int64(2), nb, nb+1, nb+3, 5*nb)
+			ops = append(ops, rpOp{"snap", 0, at(latest)})
+			for k := 1 + r.Intn(3); k > 0; k-- {
+				ops = append(ops, rpOp{"add", int64(1 + r.Intn(90)), at(latest - nb - hc.Pick(r, int64(-1), 0, 0, 1, 2))})
+			}
+			ops = append(ops, rpOp{"snap", 0, at(latest - hc.Pick(r, int64(1), 2, 2, nb, nb+1))})
+			continue
+		}
 		t := rcStamp(r, rcParams{N: p.N, W: p.W, Start: p.Start}, &latest, &far, len(ops) > n*2/3)
 		switch x := r.Intn(100); {
 		case x < 65:
